@@ -196,6 +196,48 @@ Fixpoint accepted_writes (ops : list op) (outs : list obs) : list (list Z) :=
   | _, _ => []
   end.
 
+(* the data of the Write ops of a script, in order *)
+Fixpoint write_chunks (ops : list op) : list (list Z) :=
+  match ops with
+  | [] => []
+  | OWrite d :: r => d :: write_chunks r
+  | _ :: r => write_chunks r
+  end.
+
+(* ---------- concurrent transfer under an arbitrary schedule ----------
+   A writer task writes the chunks [wq] in order, retrying the unaccepted rest of a chunk, then closes
+   with io.EOF; a reader task reads with arbitrary buffer sizes and appends what it gets to [t_got]
+   until it sees an error.  The scheduler picks, step by step, which task performs its next (atomic)
+   pipe call: [SWriter] or [SReader k] (k = size of the read buffer).  A blocked read is a no-op. *)
+Inductive sched := SWriter | SReader (k : nat).
+Record tstate := { t_p : pipe; t_wq : list (list Z); t_got : list Z; t_rerr : Z }.
+
+Definition t_step (t : tstate) (c : sched) : tstate :=
+  match c with
+  | SWriter =>
+      match t_wq t with
+      | [] => let '(p', _) := step (t_p t) (OClose E_EOF) in
+              {| t_p := p'; t_wq := []; t_got := t_got t; t_rerr := t_rerr t |}
+      | d :: rest =>
+          match step (t_p t) (OWrite d) with
+          | (p', BWrite n _) =>
+              {| t_p := p'; t_wq := (if Nat.leb (length d) n then rest else skipn n d :: rest);
+                 t_got := t_got t; t_rerr := t_rerr t |}
+          | (p', _) => {| t_p := p'; t_wq := t_wq t; t_got := t_got t; t_rerr := t_rerr t |}
+          end
+      end
+  | SReader k =>
+      if negb (t_rerr t =? 0) then t                               (* reader has finished *)
+      else match step (t_p t) (ORead k) with
+           | (p', BRead _ data e _) => {| t_p := p'; t_wq := t_wq t; t_got := t_got t ++ data; t_rerr := e |}
+           | (p', _) => {| t_p := p'; t_wq := t_wq t; t_got := t_got t; t_rerr := t_rerr t |}
+           end
+  end.
+Definition t_init (cap : nat) (chunks : list (list Z)) : tstate :=
+  {| t_p := new_pipe cap; t_wq := chunks; t_got := []; t_rerr := 0 |}.
+Definition t_run (cap : nat) (chunks : list (list Z)) (sch : list sched) : tstate :=
+  fold_left t_step sch (t_init cap chunks).
+
 (* ---------- the specification: a pure FIFO of pending bytes (no indices, no sliding) ---------- *)
 Record sst := {
   s_cap : nat;          (* capacity *)
